@@ -10,6 +10,7 @@ import (
 
 	"gverif/internal/load"
 	"gverif/internal/report"
+	"gverif/internal/wiring"
 
 	"golang.org/x/tools/go/packages"
 )
@@ -20,6 +21,9 @@ type Env struct {
 	Tier   string
 	Verif  string // /verif
 	ctlMap map[string]*load.Program
+	gm       *wiring.GoModel
+	ym       *wiring.YModel
+	modelErr bool
 }
 
 // Control loads (once) a positive-control fixture module under /verif/fixtures.
